@@ -12,7 +12,7 @@ import (
 )
 
 func recC19() *vkit.Recorder {
-	r := vkit.Rec("C19", "exploration", "pairs of replica states (A, B) over the same discovered targets in one coordinator: A from the full single-cycle generator plus 'shard listing fails', 'scaling fails', 'all shards unready' and other placements of the same targets; (1) B from a constructed order-independent family (scale-down on = first fit, <=1 target per shard, <=1 unscraped target): the normalised request log of B's shards and B's scale requests must be identical in the runs [B], [A,B] and [B,A]; (2) B' unrestricted: every per-replica oracle of C01/C04/C05/C07/C08 must hold for each replica of the pair; non-trivial = A failing, or A holding a target in a different state than B; distinct = digest of the pair")
+	r := vkit.Rec("C19", "exploration", "pairs of replica states (A, B) over the same discovered targets in one coordinator: A from the full single-cycle generator plus 'shard listing fails', 'scaling fails', 'all shards unready' and other placements of the same targets; (1) B from a constructed order-independent family (scale-down on = first fit, <=1 target per shard, <=1 unscraped target): the normalised request log of B's shards and B's scale requests must be identical in the runs [B], [A,B] and [B,A]; (2) B' unrestricted: every per-replica oracle of C01/C04/C05/C07/C08 must hold for each replica of the pair; in one of thirty differential pairs the coordinator has a period of 4 ms and every shard of A answers after 5 ms; non-trivial = A failing, A slower than the period, or A holding a target in a different state than B; distinct = digest of the pair")
 	r.Assume(cycAssume, "the differential clause is only judged on the order-independent family, where a replica's outcome is a function of its own input")
 	return r
 }
@@ -104,6 +104,15 @@ func TestC19(t *testing.T) {
 			}
 		}
 		var B ReplicaSpec
+		slowA := false
+		if mode == "differential" && rapid.IntRange(0, 29).Draw(t, "slowA") == 0 {
+			// replica A answers correctly but slowly - handling it takes longer than the coordinator's period
+			slowA = true
+			opt.PeriodMS = 4
+			for i := range A.Shards {
+				A.Shards[i].DelayMS = 5
+			}
+		}
 		if mode == "differential" {
 			opt.IdleOn = true // first fit: no random choice
 			leave := rapid.IntRange(-1, len(targets)-1).Draw(t, "unscraped")
@@ -169,6 +178,10 @@ func TestC19(t *testing.T) {
 		if allUnready {
 			cls = append(cls, "A-all-unready")
 		}
+		if slowA && len(A.Shards) > 0 && !allUnready && !A.ListFail {
+			nt = true
+			cls = append(cls, "A-slower-than-the-period")
+		}
 		fail := func(vs []vkit.Violation, sc *Scenario, tr interface{}) {
 			if bad := rec.Filter(vs); len(bad) > 0 {
 				p := vkit.SaveViolation("C19", "TestC19", sc, bad, tr)
@@ -176,7 +189,11 @@ func TestC19(t *testing.T) {
 			}
 		}
 		if mode == "differential" {
-			for e := 0; e < Execs(); e++ {
+			execs := Execs()
+			if slowA {
+				execs = 1 // no map-order dependence in what is judged here, and every execution costs real time
+			}
+			for e := 0; e < execs; e++ {
 				// two consecutive cycles on one coordinator: what another replica did in the first cycle
 				// must not show in this replica's second cycle either
 				aloneSeq := ExecSeq([]*Scenario{mk(B), mk(B)})
